@@ -86,8 +86,11 @@ def build(spec):
         rows = []
         for con in spec['constraints']:
             con = [tuple(t) if isinstance(t, (list, tuple)) else t for t in con]
-            rows.append(con)
             F.add_constraint(list(con))
+            if con[-2] in ('>=', '==') and all(c >= 0 for c, _ in con[:-2]):
+                rows.append(con)                      # already in the stored form: own reference
+            else:
+                rows.append(list(F[len(F) - 1]))      # the in-memory (normalised) constraint
             n = max([n] + [abs(l) for _, l in con[:-2]])
     exp = {'n': n, 'rows': rows, 'names': (lambda d: expected_names(entries, n, d))}
     return F, exp
